@@ -64,6 +64,7 @@ bool g_controller_scope = false;
 thread_local int tl_tid = -1;       // virtual thread id, -1 otherwise
 thread_local int tl_engine = 0;     // >0: inside engine/monitor code (allocations go to malloc)
 thread_local int tl_quiet = 0;      // >0: NoSchedule block (hooks ignored, arena allocation kept)
+thread_local uint64_t tl_quiet_ops = 0;  // operations inside the current NoSchedule block (a block that waits would never end)
 
 struct EngineScope {
   EngineScope() { ++tl_engine; }
@@ -822,6 +823,20 @@ RunOnce(const std::vector<uint8_t> &prefix)
   pthread_attr_t attr;
   pthread_attr_init(&attr);
   pthread_attr_setstacksize(&attr, 512 * 1024);
+  if (G.scn->prologue) {
+    pthread_t pt;
+    auto fn = [](void *) -> void * {
+      tl_tid = G.n;  // own arena, own fake thread id; not a scheduled thread
+      ++tl_quiet;
+      G.scn->prologue();
+      return nullptr;  // thread-exit destructors of the library run here (still quiet)
+    };
+    if (pthread_create(&pt, &attr, fn, nullptr) != 0) {
+      fprintf(stderr, "vs: pthread_create failed\n");
+      _exit(2);
+    }
+    pthread_join(pt, nullptr);
+  }
   for (int i = 0; i < G.n; ++i) {
     if (pthread_create(&G.th[i].pt, &attr, Trampoline, &G.th[i]) != 0) {
       fprintf(stderr, "vs: pthread_create failed\n");
@@ -884,12 +899,22 @@ self()
 unsigned long
 fake_thread_handle()
 {
-  return (tl_tid >= 0 && G.scn) ? G.scn->handles[tl_tid] : 0;
+  if (tl_tid < 0 || G.scn == nullptr) return 0;
+  if (tl_tid >= G.n) return 1000003UL;  // prologue thread
+  return G.scn->handles[tl_tid];
 }
 
 __attribute__((noinline)) bool
 pre(const Op &op_in)
 {
+  if (tl_tid >= 0 && tl_engine == 0 && tl_quiet > 0 && tl_tid < G.n && ++tl_quiet_ops > 3000000ULL) {
+    // an indivisible block that does not terminate on its own (it waits for another thread)
+    EngineScope es;
+    tl_quiet_ops = 0;
+    RecordViolation(G.scn->deadlock_props, "HORIZON:indivisible-block",
+                    "a call made inside an indivisible block does not return (it waits for a thread that cannot run):" + DescribeStuck(), true);
+    FatalStop();
+  }
   if (tl_tid < 0 || tl_engine > 0 || tl_quiet > 0) return false;
   EngineScope es;
   auto &t = G.th[tl_tid];
@@ -1167,7 +1192,10 @@ Replaying()
   return G.replay_verbose;
 }
 
-NoSchedule::NoSchedule() { ++tl_quiet; }
+NoSchedule::NoSchedule()
+{
+  if (tl_quiet++ == 0) tl_quiet_ops = 0;
+}
 NoSchedule::~NoSchedule() { --tl_quiet; }
 
 void
